@@ -103,6 +103,20 @@ fn run_unit(u: &Unit, emit: &mut dyn FnMut(UnitResult)) {
     if base.msgs > 2 {
         whens.push(When::AfterMsg(base.msgs - 1));
     }
+    // two-step histories: a (rejected) duplicate run request at the target, then the cancel
+    let mut combos = vec![];
+    for k in [1usize, 10] {
+        if k < base.msgs {
+            combos.push(Plan { script: u.script.clone(), inject: Some((When::AfterMsg(k), u.target, crate::srv::explore::Stray::Run)), cancel: Some((When::AfterMsg(k), u.target)), ..Default::default() });
+        }
+    }
+    for plan in combos {
+        let case = Case { cfg: u.cfg.clone(), plan };
+        match test_case(&case) {
+            Ok(i) => emit(UnitResult::Ok(i)),
+            Err(f) => emit(UnitResult::Fail(f, serde_json::to_value(&case).unwrap())),
+        }
+    }
     for w in whens {
         let case = Case { cfg: u.cfg.clone(), plan: Plan { script: u.script.clone(), cancel: Some((w, u.target)), ..Default::default() } };
         match test_case(&case) {
@@ -138,7 +152,7 @@ pub fn run(tier: Tier, seed: u64) -> i32 {
         return run_worker(units(tier, seed), k, of, run_unit);
     }
     let ctx = Ctx::new("C15", tier, seed, "fault_enumeration");
-    ctx.set_rule("systematic enumeration: cancel on each party (leader and followers; n=2 with constants from 0/1/2 parties, n=3) (i) at every quiescent point of a session, (ii) immediately after every explorer action without waiting for quiescence, (iii) while the compile thread is alive (spin on the OS thread count after each action), (iv) after the k-th MPC message for k in {1,3,10,25,last} with the computation held; oracle, applied once cancel() returned Ok: the state machine has stopped; if the policy was known and names a destination, that destination received exactly one notification - Cancelled or the real result - and nothing after the return; the party's concurrency budget is complete; a cancel that returns an error or never returns is not judged (counted); non-trivial = cancel that fired and returned Ok; distinct by hash of the case");
+    ctx.set_rule("systematic enumeration: cancel on each party (leader and followers; n=2 with constants from 0/1/2 parties, n=3) (i) at every quiescent point of a session, (ii) immediately after every explorer action without waiting for quiescence, (iii) while the compile thread is alive (spin on the OS thread count after each action), (iv) after the k-th MPC message for k in {1,3,10,25,last} with the computation held, (v) after a duplicate run request that the executing target has just rejected; oracle, applied once cancel() returned Ok: the state machine has stopped; if the policy was known and names a destination, that destination received exactly one notification - Cancelled or the real result - and nothing after the return; the party's concurrency budget is complete; a cancel that returns an error or never returns is not judged (counted); non-trivial = cancel that fired and returned Ok; distinct by hash of the case");
     ctx.assume("single-threaded runtime with exact quiescence; the multi-threaded variant is not claimed");
     let n_units = units(tier, seed).len();
     ctx.extra("work_units", json!(n_units));
